@@ -341,6 +341,21 @@ func checkC09(p *Program, r *Report) {
 						}
 					}
 					r.Add("C09.formula", FnName(fn), "bit number is the hash modulo 8·len(filter)", c.Pos(), okMod, how)
+					// every exit of the hash helper yields that reduction and nothing else
+					if okMod {
+						for _, ret := range returnsOf(fn) {
+							if len(ret.Results) != 1 {
+								continue
+							}
+							bo, ok := ret.Results[0].(*ssa.BinOp)
+							okRet := ok && bo.Op == token.REM && bo.X == ssa.Value(c)
+							if okRet {
+								ds := tb.Term(bo.Y).String()
+								okRet = strings.Contains(ds, "#8") && strings.Contains(ds, "len(") && strings.Contains(ds, ".Filter")
+							}
+							r.Add("C09.formula", FnName(fn), "every exit of the hash helper returns the reduced hash", ret.Pos(), okRet, "returns "+tb.Term(ret.Results[0]).String())
+						}
+					}
 				}
 			}
 		}
@@ -348,7 +363,59 @@ func checkC09(p *Program, r *Report) {
 			r.Unresolved("C09.formula", "call of MurmurHash3 in package bloom")
 		}
 	}
-	r.Floor("C09.formula", 2)
+	r.Floor("C09.formula", 3)
+
+	// ---- C09.decides: what the reader's answer and the writer's effect may depend on
+	for _, fn := range []*ssa.Function{writer, reader} {
+		n := 0
+		for _, b := range fn.Blocks {
+			iff, ok := lastInstr(b).(*ssa.If)
+			if !ok {
+				continue
+			}
+			n++
+			bad := foreignDeterminants(p, fn, iff.Cond)
+			r.Add("C09.decides", FnName(fn), "branch depends only on the loaded message (bit array, hash-function count), the item and the loop counter", iff.Cond.Pos(), len(bad) == 0,
+				"condition "+exprString(iff.Cond)+" also reads "+strings.Join(bad, ", "))
+		}
+		if n == 0 {
+			r.Unresolved("C09.decides", "branches of "+FnName(fn))
+		}
+	}
+	// a zero bit answers "absent"; running out of hash functions answers "present"
+	{
+		okAbsent, okPresent := false, false
+		tb := rTest.Block()
+		if iff, ok := lastInstr(tb).(*ssa.If); ok && iff.Cond == ssa.Value(rTest) {
+			zero := tb.Succs[0]
+			if rTest.Op == token.NEQ {
+				zero = tb.Succs[1]
+			}
+			if ret, ok := lastInstr(zero).(*ssa.Return); ok && len(zero.Instrs) == 1 && len(ret.Results) == 1 {
+				if v, ok := constBool(ret.Results[0]); ok && !v {
+					okAbsent = true
+				}
+			}
+		}
+		for h := rTest.Block(); h != nil; h = h.Idom() {
+			if !isLoopHeader(h) {
+				continue
+			}
+			if iff, ok := lastInstr(h).(*ssa.If); ok {
+				_ = iff
+				exit := h.Succs[1]
+				if ret, ok := lastInstr(exit).(*ssa.Return); ok && len(exit.Instrs) == 1 && len(ret.Results) == 1 {
+					if v, ok := constBool(ret.Results[0]); ok && v {
+						okPresent = true
+					}
+				}
+			}
+			break
+		}
+		r.Add("C09.decides", FnName(reader), "a clear bit answers absent at once", rTest.Pos(), okAbsent, "bit test == 0 → return false")
+		r.Add("C09.decides", FnName(reader), "all hash functions' bits set answers present", rTest.Pos(), okPresent, "loop exit → return true")
+	}
+	r.Floor("C09.decides", 6)
 
 	// ---- C09.clamp
 	if nf := p.Func("bloom", "NewFilter"); nf != nil {
@@ -444,4 +511,71 @@ func sortStrings(s []string) {
 			s[j], s[j-1] = s[j-1], s[j]
 		}
 	}
+}
+
+// foreignDeterminants lists what a branch condition of a bloom filter method reads besides the
+// loaded wire message (reached through the receiver's message field), the method's other
+// parameters, constants and values computed from those by operators, len and repository calls.
+func foreignDeterminants(p *Program, fn *ssa.Function, cond ssa.Value) []string {
+	seen := map[ssa.Value]bool{}
+	var bad []string
+	var walk func(v ssa.Value)
+	walk = func(v ssa.Value) {
+		if v == nil || seen[v] {
+			return
+		}
+		seen[v] = true
+		switch x := v.(type) {
+		case *ssa.Const:
+		case *ssa.Parameter:
+		case *ssa.BinOp:
+			walk(x.X)
+			walk(x.Y)
+		case *ssa.UnOp:
+			walk(x.X)
+		case *ssa.Convert:
+			walk(x.X)
+		case *ssa.ChangeType:
+			walk(x.X)
+		case *ssa.Phi:
+			for _, e := range x.Edges {
+				walk(e)
+			}
+		case *ssa.IndexAddr:
+			walk(x.X)
+			walk(x.Index)
+		case *ssa.Index:
+			walk(x.X)
+			walk(x.Index)
+		case *ssa.Slice:
+			walk(x.X)
+		case *ssa.FieldAddr:
+			// receiver field: only the message pointer; message fields: any
+			if len(fn.Params) > 0 && canonRoot(x.X) == ssa.Value(fn.Params[0]) && x.X == ssa.Value(fn.Params[0]) {
+				if !isNamed(derefType(fieldOfAddr(x).Type()), "github.com/gcash/bchd/wire", "MsgFilterLoad") {
+					bad = append(bad, "field "+fieldOfAddr(x).Name()+" of the filter object")
+				}
+				return
+			}
+			walk(x.X)
+		case *ssa.Call:
+			if isBuiltin(&x.Call, "len") || isBuiltin(&x.Call, "cap") {
+				walk(x.Call.Args[0])
+				return
+			}
+			if cal := x.Call.StaticCallee(); cal != nil && p.InRepo(cal) {
+				for _, a := range x.Call.Args {
+					walk(a)
+				}
+				return
+			}
+			bad = append(bad, "call "+calleeName(&x.Call))
+		case *ssa.Global:
+			bad = append(bad, "global "+x.Name())
+		default:
+			bad = append(bad, fmt.Sprintf("%T %s", v, v.Name()))
+		}
+	}
+	walk(cond)
+	return bad
 }
